@@ -13,6 +13,7 @@ import TempestVerif.Model.StateMgr
       getl:<key>                          get_last_history(key)
       commit:<strict01>                   commit_current_to_history(strict)
       results | todict                    compute_results() | to_dict()
+      logw:<int>                          compute_logw_and_logz(float(<int>))  (only in well-formed states, else `skip`)
       imp:<i>:<mode>                      update_from_dict built from the export returned by op i (a `todict`);
                                           mode ⊆ {c,h,z}: c = "_current" section, h = "_history" section,
                                           z = additionally a history key "zz" (not a valid history key) ↦ []
@@ -21,10 +22,13 @@ import TempestVerif.Model.StateMgr
         H<i> (the single array obtained in op i)
   Anything else (or an `H<i>`/`imp:<i>` whose op i does not qualify) answers `bad-op` for that op and leaves the state alone.
 
-  digest:  r=<result>#c=<current>#h=<history>#R=<results>   with keys sorted, payloads only:
+  digest:  r=<result>#c=<current>#h=<history>#R=<results>#W=<logw>   with keys sorted, payloads only:
       N | S<int> | A<int>.<int>… | O (unreadable cell);  result: U | V:<pval> | D:<dict> | X:<dict>;<hist> | E:<err>
   `None` slots / empty history lists / empty result arrays are omitted and `;n=<number of keys>` is appended; `logw` is
   reported by length.  `compute_results()` is only exercised in well-formed states (`wellFormed`), otherwise `skip`.
+  Every `logw` array (result of `logw:`, the `logw` entry of results, the `W=` section = `compute_logw_and_logz(1.0)`
+  read after every op) is reported as `<length>:ok`; the harness prints `ok` iff the array equals what a clone of the
+  manager built from `to_dict()` computes (the model's claim: it depends on the committed history only).
   The `R=` section is obtained by really performing `compute_results()` (it fills the cache), as the harness does.
 -/
 namespace Drv.C17
@@ -66,7 +70,7 @@ def showPRes : PRes → String
 /-- results section: `logw` is reported by length only (its numbers belong to C04) -/
 def showResults : PRes → String
   | .dict d => showDict (d.map fun kv => if kv.1 == "logw" then
-      (kv.1, match kv.2 with | .arr c => PVal.scalar c.length | v => v)
+      (kv.1, match kv.2 with | .arr c => PVal.scalar c.length | v => v)   -- printed as `S<len>`; the harness appends nothing when ok
       else (kv.1, if kv.2 == PVal.arr [] then PVal.none else kv.2))
   | r => showPRes r
 
@@ -141,6 +145,7 @@ def parseOp (recs : List Rec) (t : String) : Option Op :=
   | ["getl", k] => some (.getLastHistory k)
   | ["commit", st] => (parseBool st).map Op.commit
   | ["results"] => some .computeResults
+  | ["logw", b] => b.toInt?.map Op.logw
   | ["todict"] => some .toDict
   | ["imp", i, mode] =>
     if !(mode.toList.all fun ch => ch == 'c' || ch == 'h' || ch == 'z') then none else
@@ -162,12 +167,15 @@ def parseOp (recs : List Rec) (t : String) : Option Op :=
 def digest (r : String) (s : State) : State × String :=
   if !wellFormed s then
     let hist := (derefHist s.heap s.history).filter fun kv => historyKeys.contains kv.1
-    (s, s!"r={r}#c={showDict (derefDict s.heap s.current)}#h={showHist hist}#R=skip") else
+    (s, s!"r={r}#c={showDict (derefDict s.heap s.current)}#h={showHist hist}#R=skip#W=skip") else
   let q := step s .computeResults
   let o : Obs := { current := derefDict s.heap s.current, history := derefHist s.heap s.history,
-                   results := derefRes q.1.heap q.2 }
+                   results := derefRes q.1.heap q.2, logw := (observe s).logw }
   let hist := o.history.filter fun kv => historyKeys.contains kv.1
-  (q.1, s!"r={r}#c={showDict o.current}#h={showHist hist}#R={showResults o.results}")
+  let w := match o.logw with
+    | .arr c => s!"{c.length}:ok"
+    | _ => "O"
+  (q.1, s!"r={r}#c={showDict o.current}#h={showHist hist}#R={showResults o.results}#W={w}")
 
 /-- `scr:i:val` — overwrite every array obtained in op i (same length, every entry = val) -/
 def scribbleAll (s : State) (addrs : List Addr) (val : Int) : State :=
@@ -195,13 +203,14 @@ def exec (sim : Sim) (t : String) : Sim :=
     match parseOp sim.recs t with
     | none => bad
     | some op =>
-      if (match op with | .computeResults => !wellFormed sim.s | _ => false) then
+      if (match op with | .computeResults => !wellFormed sim.s | .logw _ => !wellFormed sim.s | _ => false) then
         let d := digest "skip" sim.s
         { s := d.1, recs := sim.recs ++ [⟨[], .unit⟩], out := sim.out ++ [d.2] } else
       let q := step sim.s op
       let newAddrs := q.1.escaped.take (q.1.escaped.length - sim.s.escaped.length)
       let rs := match op with
         | .computeResults => (match derefRes q.1.heap q.2 with | .dict d => "D:" ++ showResults (.dict d) | r => showPRes r)
+        | .logw _ => (match derefRes q.1.heap q.2 with | .val (.arr c) => s!"L:{c.length}:ok" | r => showPRes r)
         | _ => showPRes (derefRes q.1.heap q.2)
       let d := digest rs q.1
       { s := d.1, recs := sim.recs ++ [⟨newAddrs, q.2⟩], out := sim.out ++ [d.2] }
